@@ -37,12 +37,12 @@ CHECKS = {
   ref="DESIGN.md section 6 C04"),
  "C08": dict(
   technique="offline checker over recorded histories: a recording io.Reader logs every Read; the streamed result (blocks, trees, offsets, lines, reference map, terminal error and its stickiness) is compared with a reference execution Parse(delivered bytes); hook conservation invariant after every NextBlock",
-  text="Exploration with exhaustive sub-spaces: all partitions into reads x both EOF styles x every fault point for all strings <= 5 (quick) / 6 (thorough) symbols over a 9-symbol alphabet and for sampled 7-13 byte documents; 8 schedules + fault sweeps on generated documents. Held on the histories observed.",
+  text="Exploration with exhaustive sub-spaces: all partitions into reads x both EOF styles x every fault point for all strings <= 5 (quick) / 6 (thorough) symbols over a 9-symbol alphabet and for sampled 7-13 byte documents; 8 schedules + fault sweeps on generated documents; after its error the faulty reader repeats it, says io.EOF or goes on delivering data (the parser has to latch the first error itself). Held on the histories observed.",
   note="Trusted: Parse as the reference execution (C01-C05 judge it independently), my fingerprint of the public API.",
   ref="DESIGN.md section 6 C08"),
  "C09": dict(
   technique="metamorphic runtime monitor: quote(D) and listitem(D, marker, N) are parsed and each contained block, rendered as a root in safe mode, is compared with the corresponding root block of D",
-  text="Exploration: transformers applied to line-structured documents with multi-line inline constructs, tab-free soup, mutated spec documents and an exhaustive small alphabet; 1 quote + 2 list variants per D. Held on the executions observed.",
+  text="Exploration: transformers applied to line-structured documents with multi-line inline constructs, tab-free soup, mutated spec documents and an exhaustive small alphabet; 1 quote + 2 list variants per D; contained blocks are compared on their rendering as roots, their kinds, and the reference map of their definitions. Held on the executions observed.",
   note="Trusted: my transformers (each line prefixed with '> '; list variant only under the stated preconditions) and the thematic-break regexp for the stated exception.",
   ref="DESIGN.md section 6 C09"),
  "C14": dict(
@@ -67,7 +67,7 @@ CHECKS = {
   ref="DESIGN.md section 6 C17"),
  "C18": dict(
   technique="offline checker over recorded events: Walk callbacks record (Pre/Post, node, parent, parent block, index); the list is compared with a reference traversal under the same seeded policy (prune set, abort point, nil callbacks, custom child functions); cursor invariants asserted at each event",
-  text="Exploration: 16 (quick) / 200 (thorough) policies per parsed tree over spec, generated and pathological (depth > 2000) trees; every child-function mode on every tree. Held on the event lists observed.",
+  text="Exploration: 16 (quick) / 200 (thorough) policies per parsed tree over spec, generated and pathological (depth > 2000) trees; every child-function mode on every tree; walks started at the root blocks, at a virtual root over all of them and at two inner nodes per tree. Held on the event lists observed.",
   note="Trusted: the 20-line recursive reference traversal.",
   ref="DESIGN.md section 6 C18"),
  "C19": dict(
@@ -98,11 +98,11 @@ CHECKS = {
   ref="DESIGN.md section 6 C10"),
  "C06": dict(
   technique="runtime monitor with a reference model: abstract documents are serialised with random legal spelling choices and the library's rendering is compared, token by token (independent tokenizer, character references decoded), with the HTML obtained by structural recursion over the abstract document; plus two sub-monitors with trivial oracles (escape_all, code_verbatim)",
-  text="Exploration: 300 k (quick) / 20 M (thorough) model documents (all block kinds incl. nested tight/loose lists, quotes, HTML blocks, definitions; all inline kinds), each third also as CRLF; 200 k escape-all texts in 3 contexts; 100 k code blocks in 6 contexts x LF/CRLF. The model was calibrated at development time against goldmark (tools/modelcal), every disagreement resolved by the spec text. Held on the documents observed.",
-  note="Trusted: harness/model (serializer emits only spellings whose meaning the spec fixes; DESIGN Appendix C), my tokenizer. Bounds: <= 40 nodes per document, nesting <= 3.",
+  text="Exploration: 300 k (quick) / 20 M (thorough) model documents (all block kinds incl. nested tight/loose lists, quotes, HTML blocks, definitions; all inline kinds), each third also as CRLF, a fifth read through the streaming parser under small random / 1-byte / CRLF-cutting reads; 200 k escape-all texts in 3 contexts; 100 k code blocks in 6 contexts x LF/CRLF. The model was calibrated at development time against goldmark (tools/modelcal), every disagreement resolved by the spec text. Held on the documents observed.",
+  note="Trusted: harness/model (serializer emits only spellings whose meaning the spec fixes; DESIGN Appendix C), my tokenizer. Bounds: <= 40 nodes per document, nesting <= 3 (profile deep: 160 nodes, nesting 6); emphasis is written balanced and space-separated only (the delimiter algorithm is C11's subject).",
   ref="DESIGN.md section 6 C06"),
  "C20": dict(
-  technique="runtime monitor with fault injection at the client boundary: a recording io.Writer fails at its j-th call (every j up to 400 calls, Write and WriteString paths, short writes) and the monitor checks the returned error by identity and that no call follows; healthy-writer determinism and tree immutability on every input; metamorphic round trip (HTML preserved, Format idempotent) on canonical-style model documents",
+  technique="runtime monitor with fault injection at the client boundary: a recording io.Writer fails at its j-th call (every j up to 400 calls, Write and WriteString paths, short writes) and the monitor checks the returned error by identity and that no call follows; healthy-writer determinism (also across histories: another document is formatted between the two runs) and tree immutability on every input; metamorphic round trip (HTML preserved, Format idempotent) on canonical-style model documents and on the witnesses of repaired formatter findings",
   text="Exploration: clause 1 on spec prefixes, line-structured, soup, mutated and pathological documents with full writer-fault sweeps on a quarter of them; clause 2 on 300 k (quick) / 15 M (thorough) canonical-style documents over the construct set fixed in DESIGN C20. Held on the executions observed.",
   note="Trusted: the model's canonical profile; my tokenizer for the HTML comparison.",
   ref="DESIGN.md section 6 C20"),
